@@ -23,7 +23,9 @@ static const char *kApiName[] = {"SignatureVerifier_verify", "verifyWithPolicy",
 
 struct Expect { bool mustBeOk; bool mustNotBeOk; int failCode; bool errorStatus; };
 
-static void runOne(Case &c, const Sig &s, const Bytes &docBytes, int hd, unsigned bit, uint64_t level, int pol, int api, Dec *d) {
+// split (context variants only): 0 = hash and level as explicit arguments, 1 = the level travels in the caller's context (explicit hash, level argument 0),
+// 2 = the hash travels in the caller's context (no explicit hash, explicit level)
+static void runOne(Case &c, const Sig &s, const Bytes &docBytes, int hd, unsigned bit, uint64_t level, int pol, int api, Dec *d, int split = 0) {
     Ctx ctx; Bytes enc = s.enc(); HeapBuf in(enc); KSI_Signature *sig = nullptr;
     if (KSI_Signature_parseWithPolicy(ctx, in.p, in.n, KSI_VERIFICATION_POLICY_EMPTY, nullptr, &sig) != KSI_OK) { VF_FAIL(c, "C02:reference-signature-refused", "reference-built signature did not parse"); return; }
     Bytes want = s.docHash(); Bytes given = want; std::string devDesc = kDevName[hd];
@@ -46,7 +48,11 @@ static void runOne(Case &c, const Sig &s, const Bytes &docBytes, int hd, unsigne
     case API_VERIFIER: { KSI_VerificationContext vc; KSI_VerificationContext_init(&vc, ctx); vc.signature = sig; vc.documentHash = dh; vc.docAggrLevel = level; KSI_PolicyVerificationResult *r = nullptr;
         res = KSI_SignatureVerifier_verify(policyNo(pol), &vc, &r); if (res == KSI_OK && r) { resultCode = r->finalResult.resultCode; errorCode = r->finalResult.errorCode; verdictOk = resultCode == KSI_VER_RES_OK; } KSI_PolicyVerificationResult_free(r); KSI_VerificationContext_clean(&vc); break; }
     case API_WITH_POLICY: res = KSI_Signature_verifyWithPolicy(sig, dh, level, policyNo(pol), nullptr); verdictOk = res == KSI_OK; break;
-    case API_WITH_POLICY_CTX: { KSI_VerificationContext vc; KSI_VerificationContext_init(&vc, ctx); vc.extendingAllowed = 1; res = KSI_Signature_verifyWithPolicy(sig, dh, level, policyNo(pol), &vc); verdictOk = res == KSI_OK; KSI_VerificationContext_clean(&vc); break; }
+    case API_WITH_POLICY_CTX: if (split) { KSI_VerificationContext vc; KSI_VerificationContext_init(&vc, ctx); vc.extendingAllowed = 1;
+        if (split == 1) { vc.docAggrLevel = level; res = KSI_Signature_verifyWithPolicy(sig, dh, 0, policyNo(pol), &vc); }
+        else { vc.documentHash = dh; res = KSI_Signature_verifyWithPolicy(sig, nullptr, level, policyNo(pol), &vc); }
+        verdictOk = res == KSI_OK; vc.documentHash = nullptr; KSI_VerificationContext_clean(&vc); c.cls(split == 1 ? "ctx-split:level-in-context" : "ctx-split:hash-in-context"); break; }
+        else { KSI_VerificationContext vc; KSI_VerificationContext_init(&vc, ctx); vc.extendingAllowed = 1; res = KSI_Signature_verifyWithPolicy(sig, dh, level, policyNo(pol), &vc); verdictOk = res == KSI_OK; KSI_VerificationContext_clean(&vc); break; }
     case API_WITH_POLICY_CTX_PREFILLED: { // the context still carries the matching hash (e.g. from an earlier call); explicit arguments take precedence
         KSI_VerificationContext vc; KSI_VerificationContext_init(&vc, ctx); KSI_DataHash *stale = nullptr; KSI_DataHash_fromImprint(ctx, want.data(), want.size(), &stale); vc.documentHash = stale; vc.docAggrLevel = 0;
         res = KSI_Signature_verifyWithPolicy(sig, dh, level, policyNo(pol), &vc); verdictOk = res == KSI_OK; vc.documentHash = nullptr; KSI_VerificationContext_clean(&vc); KSI_DataHash_free(stale); break; }
@@ -99,9 +105,10 @@ void harness_case(Dec &d, Case &c) {
         if (other && res == KSI_OK) VF_FAIL(c, "C02:wrong-input-accepted:GEN-01:verifyDocument", "verifyDocument accepted another document");
         c.cls(other ? "deviation:other-document" : "no-deviation"); c.cls("api:verifyDocument"); c.nontrivial = other; c.desc = std::string("verifyDocument ") + (other ? "other" : "same") + " doc len=" + num((long long)doc2.size()) + " alg=" + num(s.docHash()[0]); return;
     }
-    runOne(c, s, docBytes, hd, bit, level, pol, api, &d);
+    int split = api == API_WITH_POLICY_CTX ? (int)d.pick(3) : 0;   // drawn last: older replay files decode to 0
+    runOne(c, s, docBytes, hd, bit, level, pol, api, &d, split);
     c.nontrivial = hd != HD_EQUAL && hd != HD_ABSENT ? true : (level > 0);
-    c.desc = std::string(kApiName[api]) + "/" + kPolName[pol] + " dev=" + kDevName[hd] + " bit=" + num(bit % 64) + " level=" + std::to_string(level) + " L0=" + num(l0) + (s.hasRfc ? " rfc" : "") + " alg=" + num(s.docHash()[0]);
+    c.desc = std::string(kApiName[api]) + "/" + kPolName[pol] + " dev=" + kDevName[hd] + " bit=" + num(bit % 64) + " level=" + std::to_string(level) + " L0=" + num(l0) + (s.hasRfc ? " rfc" : "") + " alg=" + num(s.docHash()[0]) + (split ? (split == 1 ? " level-in-context" : " hash-in-context") : "");
 }
 
 // exhaustive: every single-bit flip of the document hash of a few signatures, under the internal policy, through three API variants
